@@ -1,0 +1,120 @@
+// Copyright © 2022-2026 Obol Labs Inc. Licensed under the terms of a Business Source License 1.1
+
+//go:build verif
+
+// Verification contracts (comments only; read by /verif/govc, never compiled into charon).
+package parsigdb
+
+//@ pure core.SignedData.MessageRoot core.SignedData.Clone core.SyncSubcommitteeIndex
+
+//@ spec func distinctShares(s []core.ParSignedData) bool = forall(k, 0, len(s), forall(l, k+1, len(s), s[k].ShareIdx != s[l].ShareIdx))
+//@ spec func rootOf(p core.ParSignedData) [32]byte = res(0, p.MessageRoot())
+//@ spec func memberOf(p core.ParSignedData, s []core.ParSignedData, n int) bool = exists(j, 0, n, s[j] == p)
+
+//@ spec func cntRoot(s []core.ParSignedData, r [32]byte, n int) int = ite(n <= 0, 0, cntRoot(s, r, n-1) + ite(rootOf(s[n-1]) == r, 1, 0))
+
+//@ invariant MemDB: forallk(k, self.entries, distinctShares(self.entries[k]))
+
+//@ func getThresholdMatching
+//@ props C07 C01
+//@ pure
+//@ requires threshold >= 1 && distinctShares(sigs)
+//@ ensures len(sigs) < threshold ==> !r1 && r2 == nil
+//@ ensures r1 ==> r2 == nil && len(r0) == threshold && distinctShares(r0)
+//@ ensures r1 ==> forall(k, 0, len(r0), memberOf(r0[k], sigs, len(sigs)))
+//@ ensures r1 && typ != core.DutySignature ==> forall(k, 0, len(r0), rootOf(r0[k]) == rootOf(r0[0]))
+//@ ensures r1 && typ != core.DutySignature ==> forall(j, 0, len(sigs), rootOf(sigs[j]) == rootOf(r0[0]) ==> cntRoot(sigs, rootOf(r0[0]), j) < len(r0) && r0[cntRoot(sigs, rootOf(r0[0]), j)] == sigs[j])
+//@ ensures r1 && typ == core.DutySignature ==> seqeq(r0, sigs)
+//@ ensures r1 && typ != core.DutySignature ==> cntRoot(sigs, rootOf(r0[0]), len(sigs)) == threshold
+//@ ensures r1 && typ != core.DutySignature ==> forall(j, 0, len(sigs)+1, cntRoot(sigs, rootOf(r0[0]), j) >= 0)
+//@ canary !r1
+//@ loop 1 invariant forallk(r, sigsByMsgRoot, forall(a, 0, len(sigsByMsgRoot[r]), rootOf(sigsByMsgRoot[r][a]) == r && memberOf(sigsByMsgRoot[r][a], sigs, $i)))
+//@ loop 1 invariant forallk(r, sigsByMsgRoot, distinctShares(sigsByMsgRoot[r]))
+//@ loop 1 invariant all(r, [32]byte, len(sigsByMsgRoot[r]) == cntRoot(sigs, r, $i))
+//@ loop 1 invariant all(r, [32]byte, forall(j, 0, $i+1, cntRoot(sigs, r, j) >= 0))
+//@ loop 1 invariant forall(j, 0, $i, cntRoot(sigs, rootOf(sigs[j]), j) < len(sigsByMsgRoot[rootOf(sigs[j])]) && sigsByMsgRoot[rootOf(sigs[j])][cntRoot(sigs, rootOf(sigs[j]), j)] == sigs[j])
+//@ loop 2 invariant true
+
+//@ func parSignedDataEqual
+//@ props C07
+//@ pure
+
+//@ func (db *MemDB) evictExemptShareEntryUnsafe
+//@ props C07
+//@ assigns db.entries
+//@ ensures all(k2, key, k2 != k ==> db.entries[k2] == old(db.entries)[k2])
+//@ ensures forall(a, 0, len(db.entries[k]), db.entries[k][a].ShareIdx != shareIdx && memberOf(db.entries[k][a], old(db.entries)[k], len(old(db.entries)[k])))
+//@ ensures distinctShares(old(db.entries)[k]) ==> distinctShares(db.entries[k])
+//@ loop 1 invariant len(remaining) <= $i
+//@ loop 1 invariant forall(a, 0, len(remaining), remaining[a].ShareIdx != shareIdx && memberOf(remaining[a], sigs, $i))
+//@ loop 1 invariant distinctShares(sigs) ==> distinctShares(remaining)
+
+//@ func (db *MemDB) trackExemptUnsafe
+//@ props C07
+//@ assigns db.entries, db.exemptEntries
+//@ ensures all(k2, key, distinctShares(old(db.entries)[k2]) ==> distinctShares(db.entries[k2]))
+//@ ensures len(db.exemptEntries[exemptEntryKey{ShareIdx: shareIdx, PubKey: k.PubKey, DutyType: k.Duty.Type}]) <= maxExemptEntriesPerShare || len(db.exemptEntries[exemptEntryKey{ShareIdx: shareIdx, PubKey: k.PubKey, DutyType: k.Duty.Type}]) <= len(old(db.exemptEntries)[exemptEntryKey{ShareIdx: shareIdx, PubKey: k.PubKey, DutyType: k.Duty.Type}])
+
+//@ func (db *MemDB) store
+//@ props C07 C01 C18
+//@ atomic
+//@ assigns db.entries, db.keysByDuty, db.exemptEntries
+//@ ensures r1 ==> r2 == nil
+//@ ensures !r1 ==> db.entries == old(db.entries) && db.keysByDuty == old(db.keysByDuty) && db.exemptEntries == old(db.exemptEntries)
+//@ ensures r1 ==> forall(a, 0, len(old(db.entries)[k]), old(db.entries)[k][a].ShareIdx != value.ShareIdx)
+//@ ensures r1 && !exempt ==> len(db.entries[k]) == len(old(db.entries)[k]) + 1
+//@ ensures r1 && !exempt ==> forall(a, 0, len(old(db.entries)[k]), db.entries[k][a] == old(db.entries)[k][a])
+//@ ensures r1 && !exempt ==> db.entries[k][len(old(db.entries)[k])].ShareIdx == value.ShareIdx
+//@ ensures r1 && !exempt ==> rootOf(db.entries[k][len(old(db.entries)[k])]) == rootOf(value)
+//@ ensures r1 && !exempt ==> all(k2, key, k2 != k ==> db.entries[k2] == old(db.entries)[k2])
+//@ ensures r1 ==> seqeq(r0, db.entries[k]) && distinctShares(r0)
+//@ ensures r1 && !exempt ==> len(r0) >= 1 && r0[len(r0)-1].ShareIdx == value.ShareIdx && rootOf(r0[len(r0)-1]) == rootOf(value)
+//@ canary !r1
+//@ loop 1 invariant forall(a, 0, $i, db.entries[k][a].ShareIdx != value.ShareIdx)
+
+//@ spec func sameShape(a []core.ParSignedData, b []core.ParSignedData) bool = len(a) == len(b) && forall(i, 0, len(b), a[i].ShareIdx == b[i].ShareIdx && rootOf(a[i]) == rootOf(b[i]))
+//@ spec func sameRoot(s []core.ParSignedData) bool = forall(i, 0, len(s), rootOf(s[i]) == rootOf(s[0]))
+//@ spec func hasShareOf(s []core.ParSignedData, p core.ParSignedData) bool = exists(i, 0, len(s), s[i].ShareIdx == p.ShareIdx && rootOf(s[i]) == rootOf(p))
+
+//@ func clone
+//@ props C07 C18
+//@ ensures forallk(pk, result, has(output, pk))
+//@ ensures forallk(pk, output, has(result, pk) && sameShape(result[pk], output[pk]))
+//@ loop 1 invariant forallk(pk, clone, exists(t, 0, $i, $ks[t] == pk))
+//@ loop 1 invariant forall(t, 0, $i, has(clone, $ks[t]) && sameShape(clone[$ks[t]], output[$ks[t]]))
+//@ loop 2 invariant len(clones) == $i
+//@ loop 2 invariant forall(a, 0, $i, clones[a].ShareIdx == sigs[a].ShareIdx && rootOf(clones[a]) == rootOf(sigs[a]))
+
+//@ func matchingSigs
+//@ props C07 C01
+//@ ensures r1 == nil && typ == core.DutySignature ==> r0 == sigs
+//@ ensures r1 == nil && typ != core.DutySignature ==> forall(a, 0, len(r0), rootOf(r0[a]) == rootOf(sig) && memberOf(r0[a], sigs, len(sigs)))
+//@ ensures r1 == nil && typ != core.DutySignature ==> len(r0) == cntRoot(sigs, rootOf(sig), len(sigs))
+//@ ensures r1 == nil && typ != core.DutySignature ==> forall(j, 0, len(sigs)+1, cntRoot(sigs, rootOf(sig), j) >= 0)
+//@ ensures r1 == nil && typ != core.DutySignature ==> forall(j, 0, len(sigs), rootOf(sigs[j]) == rootOf(sig) ==> cntRoot(sigs, rootOf(sig), j) < len(r0) && r0[cntRoot(sigs, rootOf(sig), j)] == sigs[j])
+//@ ensures r1 == nil && distinctShares(sigs) ==> distinctShares(r0)
+//@ canary r1 != nil
+//@ loop 1 invariant len(resp) == cntRoot(sigs, root, $i)
+//@ loop 1 invariant forall(j, 0, $i+1, cntRoot(sigs, root, j) >= 0)
+//@ loop 1 invariant forall(a, 0, len(resp), rootOf(resp[a]) == root && memberOf(resp[a], sigs, $i))
+//@ loop 1 invariant forall(j, 0, $i, rootOf(sigs[j]) == root ==> cntRoot(sigs, root, j) < len(resp) && resp[cntRoot(sigs, root, j)] == sigs[j])
+//@ loop 1 invariant distinctShares(sigs) ==> distinctShares(resp)
+
+//@ func (db *MemDB) StoreExternal
+//@ props C07 C01
+//@ requires db.threshold >= 1
+//@ callreq sub: forallk(pk, a3, has(signedSet, pk) && len(a3[pk]) == db.threshold && distinctShares(a3[pk]))
+//@ callreq sub: duty.Type != core.DutySignature ==> forallk(pk, a3, sameRoot(a3[pk]))
+//@ callreq sub: !exempt ==> forallk(pk, a3, hasShareOf(a3[pk], signedSet[pk]))
+//@ after db.store: ok && err == nil && !exempt ==> hasShareOf(sigs, sig)
+//@ after matchingSigs: err == nil && ok && !exempt && duty.Type != core.DutySignature ==> cntRoot(sigs, rootOf(sig), len(sigs)-1) < len(matching) && matching[cntRoot(sigs, rootOf(sig), len(sigs)-1)] == sigs[len(sigs)-1]
+//@ after matchingSigs: err == nil && ok && !exempt ==> hasShareOf(matching, sig)
+//@ after getThresholdMatching: err == nil && ok && !exempt ==> hasShareOf(psigs, sig)
+//@ ensures status == core.DeadlineExpired ==> ncalls(sub) == 0 && ncalls(db.store) == 0
+//@ ensures status != core.DeadlineExpired ==> ncalls(core.SyncSubcommitteeIndex) == len(signedSet)
+//@ loop 1 invariant true
+//@ loop 2 invariant forallk(pk, output, has(signedSet, pk) && len(output[pk]) == db.threshold && distinctShares(output[pk]))
+//@ loop 2 invariant duty.Type != core.DutySignature ==> forallk(pk, output, sameRoot(output[pk]))
+//@ loop 2 invariant !exempt ==> forallk(pk, output, hasShareOf(output[pk], signedSet[pk]))
+//@ loop 2 invariant ncalls(sub) == 0 && ncalls(core.SyncSubcommitteeIndex) == $i
+//@ loop 3 invariant ncalls(core.SyncSubcommitteeIndex) == len(signedSet)
